@@ -8,18 +8,22 @@ from harness import exec_props as X
 BIAS = {"profiles": ["timeout", "timeout", "timeout", "timeout", "mixed", "hw"],
         "sub_ok_p": 0.7, "cancel_p": 0.04, "attempts": [1, 2, 3], "max_polls": 16, "nmax": 7,
         "fair_after": [None, None, 6, 10]}
-# exhaustive tiny scope: the tiny graphs carry restart commands with limits 0 (unlimited), 1, 2
-# and steps without restart command; every queried job is absent / RUNNING / FINISHED / TIMEDOUT /
-# HWFAILURE at every poll, every submission may fail, a cancel request may arrive at any poll
-TINY = {"depth_quick": 4, "depth_thorough": 5, "graphs_quick": 6,
+# exhaustive tiny scope: the tiny graphs carry restart commands with limit 1 and 2 and steps without
+# restart command (scheduled and local); every queried job is absent / RUNNING / FINISHED /
+# TIMEDOUT / HWFAILURE at every poll.  quick: depth 3 (submit, timeout+restart, timeout with the
+# budget of 1 used up), ideal submissions (failing restart submissions come from the random
+# stream).  thorough: depth 3 with a failing outcome possible for every submission (failing
+# restart submissions, exhausted attempts) -- and see TINY_DEEP.
+TINY = {"depth_quick": 3, "depth_thorough": 3, "graphs_quick": 6,
         "cfgs": [{"throttle": 0, "attempts": 1, "dry": False}, {"throttle": 1, "attempts": 2, "dry": False}],
-        "enum": {"q": False, "cancel": True, "subs": True,
+        "enum": {"q": False, "cancel": False, "subs": False,
                  "kinds": ["absent", "RUNNING", "FINISHED", "TIMEDOUT", "HWFAILURE"]},
-        "limit_quick": 2400, "limit_thorough": 60000}
+        "limit_quick": 4000, "limit_thorough": 60000}
+TINY_THOROUGH = dict(TINY, enum=dict(TINY["enum"], subs=True, cancel=True))
 
 
 def run(ck):
-    return X.run_exec(ck, 6, BIAS, tiny=TINY)
+    return X.run_exec(ck, 6, BIAS, tiny=TINY if ck.tier == "quick" else TINY_THOROUGH)
 
 
 def replay(ck, path):
